@@ -9,8 +9,10 @@ CONSTANTS
   MaxMembers <- M00
   MaxClasses = 0
   BaseAlpha <- None
+  MaxBases = 1
+  ClassComments <- NoComment
   TopAlpha <- TopsAll
-  MaxTops = 2
+  MaxTops = 1
   CmdKinds <- None
 INVARIANT SafeVis
 INVARIANT SafeAccess
